@@ -286,6 +286,7 @@ pub struct OrdGen {
     /// "fill" phase: insert until this many entries are stored (arena exactly full / just grown)
     pub fill_target: Option<usize>,
     pub fill_pct: u64,
+    pub clear_after_fill: bool,
     pub pending: std::collections::VecDeque<Op>,
     pub forced_clear_at: Option<usize>,
     pub generated: usize,
@@ -355,7 +356,7 @@ impl OrdWorld {
     }
 
     fn default_gen() -> OrdGen {
-        OrdGen { w: [10, 5, 5, 2, 1, 1, 1, 0, 0, 0, 0, 1, 0, 1], key_pattern: 0, del_w: [1; 8], max_pop: 32, last_key: 0, zig: false, order: Vec::new(), walk_after_mut: false, fill_target: None, fill_pct: 0, pending: std::collections::VecDeque::new(), forced_clear_at: None, generated: 0 }
+        OrdGen { w: [10, 5, 5, 2, 1, 1, 1, 0, 0, 0, 0, 1, 0, 1], key_pattern: 0, del_w: [1; 8], max_pop: 32, last_key: 0, zig: false, order: Vec::new(), walk_after_mut: false, fill_target: None, fill_pct: 0, clear_after_fill: false, pending: std::collections::VecDeque::new(), forced_clear_at: None, generated: 0 }
     }
 
     fn draw_gen(cfg: &Cfg, r: &mut Rng) -> OrdGen {
@@ -422,6 +423,7 @@ impl OrdWorld {
         g.fill_pct = *r.pick(&[0, 0, 25, 50, 100]);
         if r.below(100) < g.fill_pct / 2 {
             g.fill_target = Some(Self::draw_fill_target(cfg, r));
+            g.clear_after_fill = r.chance(1, 3);
         }
         if cfg.has(O_TWIN) {
             g.forced_clear_at = Some(r.below(12) as usize);
@@ -430,15 +432,32 @@ impl OrdWorld {
         g
     }
 
-    fn draw_fill_target(cfg: &Cfg, r: &mut Rng) -> usize {
-        let slots = cfg.cap.max(8);
-        let t = match r.below(5) {
-            0 => slots.saturating_sub(2),
-            1 | 2 => slots - 1,
-            3 => slots,
-            _ => 2 * slots,
+    /// An unresolved fill target: 1_000_000 + variant. It is turned into an absolute number
+    /// of stored entries when the fill phase starts, relative to the arena size AT THAT TIME
+    /// (after earlier growth, after a clear): two short of full, one short, exactly full,
+    /// just grown, grown twice.
+    fn draw_fill_target(_cfg: &Cfg, r: &mut Rng) -> usize {
+        1_000_000 + r.below(7) as usize
+    }
+
+    fn resolve_fill_target(&self, unresolved: usize) -> usize {
+        let slots = self.arena_slots_now();
+        let t = match unresolved - 1_000_000 {
+            0 => slots.saturating_sub(3),
+            1 | 2 => slots.saturating_sub(2),
+            3 => slots.saturating_sub(1),
+            4 => slots,
+            5 => 2 * slots,
+            _ => 4 * slots + 1,
         };
-        t.min(40).max(2)
+        t.clamp(2, 300)
+    }
+
+    fn arena_slots_now(&self) -> usize {
+        match self.colls.first().and_then(|c| c.snapshot()) {
+            Some(s) => s.slots.len().max(2),
+            None => self.cfg.cap.max(8),
+        }
     }
 
     fn expected_seen(&self, k: i32) -> Option<Seen> {
@@ -1067,6 +1086,8 @@ impl OrdWorld {
         }
         if mutating {
             self.post_structure(ctx, opkind)?;
+        }
+        if mutating && (cfg.sweep_mode == 0 || matches!(op, Op::OClear)) {
             if cfg.has(O_OGET) {
                 self.sweep_check(ctx, "ord.get", opkind, false)?;
             } else if observed && cfg.has(O_OHANDLE) {
@@ -1074,6 +1095,55 @@ impl OrdWorld {
             } else if self.twins.iter().any(|t| t.is_some()) {
                 self.sweep_check(ctx, "twin", opkind, false)?;
             }
+        }
+        Ok(())
+    }
+
+    /// Keys of a bulk build, in insertion order.
+    fn bulk_keys(&self, n: i32, pat: u8) -> Vec<i32> {
+        let lo = self.cfg.key_lo;
+        match pat {
+            0 => (0..n).map(|i| lo + i).collect(),
+            1 => (0..n).rev().map(|i| lo + i).collect(),
+            _ => {
+                let h = n / 2;
+                (0..h).map(|i| lo + i).chain((h..n).rev().map(|i| lo + i)).collect()
+            }
+        }
+    }
+
+    fn step_bulk(&mut self, n: i32, pat: u8, ctx: &mut RunCtx) -> Result<(), Stop> {
+        let cfg = self.cfg.clone();
+        let keys = self.bulk_keys(n, pat);
+        let first_ver = self.next_ver;
+        self.next_ver += n as u32;
+        ctx.stats.bump("bulk.large_tree_built");
+        for ci in 0..self.colls.len() {
+            let name = self.colls[ci].name();
+            let c = &mut self.colls[ci];
+            let ks = &keys;
+            let (_, cb) = call(ctx, &cfg, name, "insert (bulk)", "OBulk", false, None, None, || {
+                for (i, k) in ks.iter().enumerate() {
+                    c.insert(*k, first_ver + i as u32);
+                }
+            })?;
+            if ci == 0 {
+                ctx.cb_counts.push(cb);
+            }
+            if let Some(tw) = self.twins[ci].as_mut() {
+                let _ = call(ctx, &cfg, twin_name(name), "insert (bulk)", "OBulk", false, None, None, || {
+                    for (i, k) in ks.iter().enumerate() {
+                        tw.insert(*k, first_ver + i as u32);
+                    }
+                })?;
+            }
+        }
+        for (i, k) in keys.iter().enumerate() {
+            self.model.insert(*k, first_ver + i as u32);
+        }
+        self.post_structure(ctx, "OBulk")?;
+        if cfg.has(O_OGET) {
+            self.sweep_check(ctx, "ord.get", "OBulk", false)?;
         }
         Ok(())
     }
@@ -1156,6 +1226,20 @@ impl OrdWorld {
         if self.model.is_empty() {
             return None;
         }
+        if self.model.len() > 50_000 {
+            // a bulk-built tree: ends, the middle seam of pattern 2, the root, else anything
+            let lo = *self.model.keys().next().unwrap();
+            let hi = *self.model.keys().next_back().unwrap();
+            let mid = lo + (hi - lo + 1) / 2;
+            let root = self.colls[0].snapshot().and_then(|s| s.slots.get(s.root as usize).map(|n| n.key));
+            let mut cands = vec![lo, lo + 1, hi, hi - 1, mid - 1, mid, mid + 1, mid - 2];
+            if let Some(k) = root {
+                cands.extend([k, k - 1, k + 1]);
+            }
+            cands.push(r.range(lo as i64, hi as i64) as i32);
+            cands.retain(|k| self.model.contains_key(k));
+            return cands.get(r.below(cands.len().max(1) as u64) as usize).copied();
+        }
         let which = r.weighted(&self.gen.del_w);
         let ks: Vec<i32> = self.model.keys().copied().collect();
         let snap = if which >= 5 { self.colls[0].snapshot() } else { None };
@@ -1222,6 +1306,8 @@ impl World for OrdWorld {
             Op::OHold { k } => self.model.contains_key(k),
             Op::ONext { k } | Op::OPrev { k } => self.is_set && self.model.contains_key(k),
             Op::OWalk => self.is_set,
+            Op::OSweep => true,
+            Op::OBulk { n, pat } => self.model.is_empty() && *n > 0 && *n <= self.cfg.universe && *pat <= 2 && self.colls.iter().all(|c| !c.is_list()),
             _ => false,
         }
     }
@@ -1233,6 +1319,19 @@ impl World for OrdWorld {
         let opkind = step.op.kind();
         match step.op {
             Op::OHold { k } => self.step_hold(k, ctx)?,
+            Op::OBulk { n, pat } => self.step_bulk(n, pat, ctx)?,
+            Op::OSweep => {
+                let oracle = if self.cfg.has(O_OGET) {
+                    "ord.get"
+                } else if self.cfg.has(O_OHANDLE) {
+                    "ord.handle"
+                } else {
+                    "twin"
+                };
+                if self.cfg.has(O_OGET | O_OHANDLE | O_TORN) || self.twins.iter().any(|t| t.is_some()) {
+                    self.sweep_check(ctx, oracle, "OSweep", false)?;
+                }
+            }
             Op::OIns { .. } | Op::ODel { .. } | Op::OGet { .. } | Op::OEmpty | Op::OClear | Op::OFirst { .. } | Op::OHRead { .. } | Op::OHWrite { .. } | Op::OHDel { .. } | Op::ONext { .. } | Op::OPrev { .. } | Op::OWalk => self.step_generic(step, ctx)?,
             _ => return Err(Stop::Inconclusive("operation of another world".into())),
         }
@@ -1252,6 +1351,9 @@ impl World for OrdWorld {
 
     fn gen(&mut self, r: &mut Rng, _ctx: &mut RunCtx, _remaining: usize) -> Op {
         self.gen.generated += 1;
+        if self.cfg.sweep_mode == 1 && r.chance(1, 6) {
+            return Op::OSweep;
+        }
         if self.gen.forced_clear_at == Some(self.gen.generated - 1) {
             if r.below(100) < self.gen.fill_pct {
                 self.gen.fill_target = Some(Self::draw_fill_target(&self.cfg, r));
@@ -1263,7 +1365,9 @@ impl World for OrdWorld {
                 return op;
             }
         }
-        if let Some(target) = self.gen.fill_target {
+        if let Some(t0) = self.gen.fill_target {
+            let target = if t0 >= 1_000_000 { self.resolve_fill_target(t0) } else { t0 };
+            self.gen.fill_target = Some(target);
             if self.model.len() < target && (self.cfg.universe as usize) > target + 1 {
                 for _ in 0..12 {
                     let k = self.pick_key(r);
@@ -1273,6 +1377,11 @@ impl World for OrdWorld {
                 }
             }
             self.gen.fill_target = None;
+            if self.gen.clear_after_fill {
+                self.gen.clear_after_fill = false;
+                self.gen.fill_target = Some(Self::draw_fill_target(&self.cfg, r));
+                return Op::OClear;
+            }
         }
         for _ in 0..8 {
             let which = r.weighted(&self.gen.w.clone());
@@ -1328,6 +1437,11 @@ impl World for OrdWorld {
                     }
                 }
                 W_NEXT | W_PREV => {
+                    if self.model.len() > 50_000 {
+                        if let Some(k) = self.pick_present(r) {
+                            return if which == W_NEXT { Op::ONext { k } } else { Op::OPrev { k } };
+                        }
+                    }
                     if !self.model.is_empty() {
                         let ks: Vec<i32> = self.model.keys().copied().collect();
                         let k = match r.below(4) {
